@@ -241,6 +241,8 @@ def call_intrinsic(ex, st, ins, name, args):
         if k in ('fadd', 'fmul'):
             acc, v = args
             r = acc
+            if ex.fpmode == 'token' and k == 'fadd' and acc._bits in (0, 1 << (n - 1)):
+                r = F(n, bits=0)          # +-0 start value: the additive identity of the token abstraction
             for x in v: r = ex.fp_arith(st, k, n, [r, x], ins.extra.get('fmf') or ())
             return r
         raise Unsupported(nm)
